@@ -240,6 +240,16 @@ def _take(m, args, raw):
     return v
 
 
+@model("Option::as_mut", "Option::as_ref", "Option::as_deref_mut", "Option::as_deref")
+def _opt_as_mut(m, args, raw):
+    """Option<&mut T> / Option<&T> into the option's payload (writes through it reach the original)"""
+    p = args[0]
+    v = p.load() if isinstance(p, Ptr) else p
+    if v.variant == "None":
+        return NONE()
+    return Some(Ptr(v.fields, 0))
+
+
 @model("Option::insert")
 def _insert(m, args, raw):
     p = args[0]
